@@ -290,6 +290,8 @@ def endpoint_skeletons() -> dict[str, dict]:
                     },
                 }
             },
+            # keys the generator cannot turn into a status (reported, omitted) listed *between* ordinary ones
+            "/r/range": {"get": {"operationId": "getRange", "responses": {"200": jresp(INT), "4XX": jresp(ref("Err")), "503": jresp(ref("Err")), "default": jresp(ref("Err")), "409": jresp(STR)}}},
             "/r/none": {"get": {"operationId": "getNone", "responses": {"204": {"description": "none"}}}},
             "/r/shared1": {"get": {"operationId": "getSharedOne", "responses": {"200": jresp(INT), "404": {"$ref": "#/components/responses/NotFound"}}}},
             "/r/shared2": {"get": {"operationId": "getSharedTwo", "responses": {"404": {"$ref": "#/components/responses/NotFound"}, "409": {"$ref": "#/components/responses/NotFound"}}}},
